@@ -263,7 +263,7 @@ class TemplateLookup(TemplateCollection):
         except KeyError:
             pass
 
-        if uri[0] == "/":
+        if uri.startswith("/"):
             v = self._uri_cache[key] = uri
         elif relativeto is not None:
             v = self._uri_cache[key] = posixpath.join(
